@@ -721,7 +721,9 @@ class TypeTransformer:
             if not t.__forward_evaluated__:
                 raise TypeError(f"ForwardRef: {t} not evaluated")
             t = t.__forward_value__
-        return func(self, data, t)
+        # func was resolved when the type was declared: a converter registered since then
+        # takes precedence (a cached lookup)
+        return (self.resolver_transformer(t) or func)(self, data, t)
 
     def __call__(self, data, t: Type[T]) -> T:
         if isinstance(t, ForwardRef):
